@@ -8,7 +8,7 @@ def expr(rng, depth=0):
     c = rng.random()
     if depth > 2 or c < 0.3:
         return rng.choice(["a", "b", "x", "1", "2.5", "'s'", "None", "True", "b'y'", "...", "-0.0", "0.0", "1j",
-                           "10**20", "(1, 2.0, 'z')", "float('nan')", "1e400", "'\\udc80'"])
+                           "10**20", "(1, 2.0, 'z')", "(1e400 - 1e400)", "(1e400j - 1e400j)", "1e400", "'\\udc80'"])
     if c < 0.5:
         return "%s %s %s" % (expr(rng, depth + 1), rng.choice(["+", "-", "*", "and", "or", "<", "is", "in"]), expr(rng, depth + 1))
     if c < 0.6:
